@@ -194,6 +194,7 @@ func runC07(c *core.Ctx) {
 	runR712(c, "R7.12")
 	c.Rule("R7.9", "a request header has one owner: a decoder handed the header its caller releases never puts it back into the pool itself (a header released twice is given to two connections, whose requests then overwrite each other's length fields)", 2)
 	runR147(c, "R7.9", poolWrappers(c), "protocol")
+	c.Share(map[string]string{"R14.3": "R7.13"}, runC14) // the scratch buffer a header is decoded from belongs to one decoder: released twice it is shared with another connection's decoder
 }
 
 // rowQuiet: the quiet flag of the request built in the row's block.
